@@ -64,10 +64,12 @@ Proof.
 Qed.
 Print Assumptions C07_rerun_converges_partial.
 
-(* the full "same final state as an uninterrupted run" statement is refuted by the faithful model:
-   after a crash between the last file write and the manifest write, the re-run finds an empty plan
-   and existing (stale) manifests, takes the no-change shortcut and never rewrites the manifest *)
-Example C07_rerun_refuted :
+(* regression witness of the repaired defect K7c (/repo commit "a stale or unreadable target manifest
+   is rewritten by the next deploy"): after a crash between the last file write and the manifest
+   write the re-run used to find an empty plan and an existing (stale) manifest and took the
+   no-change shortcut; with the repaired rule it applies once more and the manifest ends up exactly
+   as after the uninterrupted run *)
+Example C07_rerun_k7c_regression :
   let r := Build_root (s "codex") [s "h"; s "p"] true in
   let pa := [s "h"; s "p"; s "a.md"] in let pb := [s "h"; s "p"; s "b.md"] in
   let man := FMan (Parsed 1 (s "codex") [(s "a.md", 1)]) in
@@ -78,10 +80,10 @@ Example C07_rerun_refuted :
   let steps := steps_of_apply f [r] D pl in
   (* crash after b.md was renamed into place (7 operations), before the manifest is rewritten *)
   let wc := Build_world (cfiles (run_prefix 7 steps (init_state f))) [] in
-  files wc pb = Some (FBytes 2) /\
-  snd (deploy_cmd SJsonYes true false None wc [r] D) = (ONoChanges, wc) /\
-  files wc (mf_path r) = Some man /\
-  files (apply_plan KDeploy w [r] D pl) (mf_path r) = Some (FMan (Parsed 1 (s "codex") [(s "a.md", 1); (s "b.md", 2)])).
+  let rerun := deploy_cmd SJsonYes true false None wc [r] D in
+  files wc pb = Some (FBytes 2) /\ files wc (mf_path r) = Some man /\
+  fst rerun = [] /\ fst (snd rerun) = OApplied /\
+  files (snd (snd rerun)) (mf_path r) = files (apply_plan KDeploy w [r] D pl) (mf_path r).
 Proof. vm_compute. repeat split; reflexivity. Qed.
 
 Example C07_nonvacuous :
